@@ -269,7 +269,7 @@ def compilers_for(lang, eff1, eff2, thorough):
     if lang == "c":
         out = [("gcc-c11", ["gcc", "-std=c11"]), ("g++-c-in-c++14", ["g++", "-std=c++14", "-x", "c++"])]
         if thorough and have_clang:
-            out.append(("clang-c11", ["clang", "-std=c11"]))
+            out.append(("clang-c11", ["clang", "-std=c11", "-ferror-limit=0"]))
         return out
     stds = []
     for o in (eff1, eff2):
@@ -278,7 +278,7 @@ def compilers_for(lang, eff1, eff2, thorough):
     s = f"-std=c++{max(stds)}"
     out = [("g++" + s, ["g++", s])]
     if thorough and have_clang:
-        out.append(("clang++" + s, ["clang++", s]))
+        out.append(("clang++" + s, ["clang++", s, "-ferror-limit=0"]))
     return out
 
 
@@ -385,8 +385,9 @@ def strictly_compilable(lang, d: Domain, eff):
         return False
     if lang == "cpp" and not re.fullmatch(r"c\+\+\d+", str(eff.get("std"))):
         return False
-    for _, b in bases(d):
-        if all(eff.get(k) == b.get(k) or d.by_key[k]["cli"] is not None for k in set(eff) | set(b)):
+    for i, (_, b) in enumerate(bases(d)):
+        # a preset fixes its own language standard (std::pmr needs C++17); the default set may be combined with any
+        if all(eff.get(k) == b.get(k) or (d.by_key[k]["cli"] is not None and (k != "std" or i == 0)) for k in set(eff) | set(b)):
             return True
     return False
 
